@@ -401,7 +401,7 @@ def run(c):
     if c.thorough:
         plans = [(K4, 6), ([1, 2, 3], 7), ([1, 2, 3, 4, 5], 5), ([1, 2], 9)]
     else:
-        plans = [(K4, 5), ([1, 2, 3], 6), ([1, 2], 7)]
+        plans = [(K4, 5), ([1, 2, 3], 6)]
     for keys, L in plans:
         for b in batches(tree_exhaustive(keys, L), 200000):
             do("tree-exh-%dk-%d" % (len(keys), L), b)
@@ -430,8 +430,8 @@ def run(c):
 
     # ---- circular: exhaustive + random
     cl = 6 if c.thorough else 5
-    for prefix in ([], ["r:3"], ["r:2", "w", "r:1"]):
-        for b in batches(circ_exhaustive(prefix, cl if prefix != [] else cl - 1), 100000):
+    for prefix, ln in (([], cl - 1), (["r:3"], cl), (["r:2", "w", "r:1"], cl - 1)):
+        for b in batches(circ_exhaustive(prefix, ln), 100000):
             do("circ-exh", b)
     lines = []
     for i in range(4000 if c.thorough else 600):
@@ -453,8 +453,8 @@ def run(c):
         "tree: every Set/Delete sequence of the planned exact lengths over small key sets (%s; the tree is dumped after "
         "every operation so shorter histories are covered as prefixes), all insertion orders of %d keys + 2 deletions, "
         "ascending/descending runs up to 39, %d random histories (styles mix/asc/desc/phases, up to %d ops); "
-        "circular: every sequence of %d mutators from {push,pop,reserve 3,reserve 5,clear,swap,deep-assign} after three "
-        "prefixes with all observers after each step, %d random histories; distinct = distinct line text; every line "
+        "circular: every sequence of %d (after `reserve 3`) / one fewer (from empty, and after a swapped-in capacity 2) "
+        "mutators from {push,pop,reserve 3,reserve 5,clear,swap,deep-assign} with all observers after each step, %d random histories; distinct = distinct line text; every line "
         "contains at least one state-changing operation except the fixed malformed/empty probes" % (
             ", ".join("%d keys x len %d" % (len(k), L) for k, L in plans), perm_n, nrand,
             1500 if c.thorough else 300, cl, 4000 if c.thorough else 600))
